@@ -137,7 +137,7 @@ fn parse_rfc2822<'a>(parsed: &mut Parsed, mut s: &'a str) -> ParseResult<(&'a st
     parsed.set_minute(try_consume!(scan::number(s, 2, 2)))?;
     if let Ok(s_) = scan::char(s.trim_start(), b':') {
         // [ ":" *S 2DIGIT ]
-        parsed.set_second(try_consume!(scan::number(s_, 2, 2)))?;
+        parsed.set_second(try_consume!(scan::number(s_.trim_start(), 2, 2)))?;
     }
 
     s = scan::space(s)?; // mandatory
